@@ -71,13 +71,37 @@ CHECKS.update({
         technique="TLA+ property statement vs TLA+ machine (TLC refinement check) + replay of TLC cases into real trims + TLC-judged recorded outcomes", ref="5 (C10)"),
 })
 
+CHECKS.update({
+    "C03": dict(engine=PM,
+        text="Model: for left-recursion-free families with Memoize around the nonterminals and around all / alternating subsets of the other nodes, TLC checks "
+             "AtMostOnce (body runs per position) in every state and Transparent at the end of a two-phase behaviour (memoised run, then the same asks on the "
+             "grammar with every Memoize removed). Code: memoised build, plain build and memoised build again on a fresh context; C03Trace compares ordered "
+             "full trees, returned errors, furthest-error position, call counts and body runs; the memoised runs are trace-validated against the machine.",
+        note=PMNOTE, technique="TLC invariant + two-phase behaviour on the TLA+ machine; TLC-judged triple observations (memoised / plain / repeated) of the real code; trace validation", ref="5 (C03)"),
+    "C07": dict(engine=PM,
+        text="Specification values are mathematical values (CacheMonotoneMC on the model); on the real code the harness keeps every node / list any probe has seen "
+             "returned with its rendering at that moment, re-renders all of them after every top-level call and at the end, and asks every memoised parser "
+             "twice more; any difference becomes a 'mutation' line that ParsleyTrace has no action for. Families biased toward sharing (groups consumed by "
+             "several appending parents; one memoised result used trimmed and untrimmed).",
+        note=PMNOTE + "; one known finding (RightTrim moves the end of its operand's node in place) is listed in known_findings.json and matched by shape, any other mutation is a violation",
+        technique="value semantics in the TLA+ machine + re-observation of every returned result on real runs, judged by the trace specification", ref="5 (C07)"),
+    "C13": dict(engine="TreePass",
+        text="TreePass.tla: explicit-stack Walk machine (invariants: visited is a prefix of the post-order, each node once, children first, stop at once) and recursive "
+             "definitions of the event logs of StaticCheck / Transform / Evaluate; TLC enumerates every tree shape up to 5-6 nodes (with / without a NodeList root, every "
+             "stop point) and every labelling up to 3-4 nodes with every injected failure; replayed on real ast nodes with recording interpreters; random trees up to "
+             "200 nodes judged by TreePassTrace.",
+        note="exhaustive up to 5-6 nodes (shapes) / 3-4 nodes (labellings); Transform / Evaluate on single trees",
+        technique="TLA+ Walk machine + recursive pass definitions, TLC exhaustive export replayed on real ast nodes, TLC-judged logs of random large trees", ref="5 (C13)"),
+})
+
 NOT_YET = {}
 
 ENGINES = [
+    dict(name="TreePass", path="spec/TreePass.tla", serves_properties=["C13"], kind_free_text="Walk machine + pass definitions; TreePassMC (export), TreePassTrace"),
     dict(name="Reader", path="spec/Reader.tla", serves_properties=["C09"], kind_free_text="byte-level reader specification + cursor machine; ReaderMC, ReaderTrace"),
     dict(name="Trim", path="spec/Trim.tla", serves_properties=["C10"], kind_free_text="whitespace-mode property statement; TrimMC (machine vs property), TrimTrace"),
     dict(name="FileSet", path="spec/FileSet.tla", serves_properties=["C11"], kind_free_text="TLA+ file-set machine; FileSetMC (export), FileSetTrace"),
-    dict(name="ParsleyMachine", path="spec/ParsleyMachine.tla", serves_properties=["C01", "C02", "C04", "C06"],
+    dict(name="ParsleyMachine", path="spec/ParsleyMachine.tla", serves_properties=["C01", "C02", "C03", "C04", "C06", "C07"],
          kind_free_text="TLA+ explicit-stack machine of the parsing algorithm; Derivation.tla (denotational oracle), Grammar.tla (families), "
                         "ParsleyMC (exhaustive exploration + export), ParsleyTrace (trace validation / judge)"),
     dict(name="IntData", path="spec/IntData.tla", serves_properties=["C15"],
